@@ -103,6 +103,8 @@ def apply(arm, tr, op, rnd):
                 out.append(('fk' + band(clamp(th, tr.spec), G.maxdiff(T, want), np.max(np.abs(want))), 'FK(theta) differs from base*prod(exp(S_i theta_i))*home (theta clamped to the limits) by %.3g' % G.maxdiff(T, want)))
         elif k in ('IK', 'IKfree'):
             goal = tr.fk(np.array(op[1], dtype=float))
+            if len(op) > 3 and op[3]:            # a goal far beyond reach: every attempt of the solver fails
+                goal = goal.copy(); goal[:3, 3] += np.array(op[3], dtype=float)
             th0 = np.array(op[2], dtype=float)
             th, ok = arm.IK(tm(goal), th0.copy(), protect=(k == 'IKfree'))
             th = np.asarray(th, dtype=float).reshape(-1)
@@ -141,7 +143,8 @@ def rand_history(rnd, spec, L):
             ops.append(('FKedge', [rnd.random() for _ in range(n)], rnd.randrange(n), rnd.random() < 0.5, rnd.choice([1e-3, 0.05, 0.1, 0.5])))
         elif k in ('IK', 'IKfree'):
             g = th(1.5)
-            ops.append((k, g, [x + rnd.uniform(-0.05, 0.05) for x in g] if rnd.random() < 0.7 else th(1.5)))
+            far = [rnd.choice([-1, 1]) * rnd.uniform(30, 60) for _ in range(3)] if rnd.random() < 0.25 else None
+            ops.append((k, g, [x + rnd.uniform(-0.05, 0.05) for x in g] if rnd.random() < 0.7 else th(1.5), far))
         elif k in ('move', 'moveS'):
             ops.append((k, list(np.concatenate([G.translation(rnd, 2.0), G.rotvec(rnd, rnd.choice(['zero', 'one', 'generic', 'half_pi']))[0]]))))
         elif k == 'setHome':
